@@ -8,6 +8,7 @@ import (
 	"fmt"
 	"math"
 	"sort"
+	"strings"
 
 	ad "github.com/pbenner/autodiff"
 )
@@ -132,7 +133,13 @@ func propCheck(ops []Op) (fail string, at int) {
 	ho := newHeapOracle()
 	for idx, o := range ops {
 		at = idx
-		one := execOne(o, &trees, &iters)
+		one, broke := safeExecOne(o, &trees, &iters)
+		if broke {
+			if one.H == -778 {
+				return "operation does not terminate: " + o.Op + fmt.Sprintf("(%d)", o.I), idx
+			}
+			return "panic in " + o.Op + fmt.Sprintf("(%d)", o.I), idx
+		}
 		outs = append(outs, one)
 		if msg := ho.check(o, trees); msg != "" {
 			return "after " + o.Op + fmt.Sprintf("(%d): ", o.I) + msg, idx
@@ -227,8 +234,12 @@ func shrink(ops []Op) []Op {
 		return f != ""
 	}
 	// truncate after the failing op
-	if f, at := propCheck(ops); f != "" && at >= 0 && at+1 < len(ops) {
-		ops = ops[:at+1]
+	f0, at0 := propCheck(ops)
+	if f0 != "" && at0 >= 0 && at0+1 < len(ops) {
+		ops = ops[:at0+1]
+	}
+	if strings.HasPrefix(f0, "operation does not terminate") {
+		return ops // every further probe would cost a timeout and an abandoned spinning goroutine
 	}
 	chunk := len(ops) / 2
 	for chunk >= 1 {
